@@ -266,6 +266,7 @@ type Resp struct {
 	EvalTicks  int               `json:"evalTicks,omitempty"`
 	ParseTicks int               `json:"parseTicks,omitempty"`
 	CallStack  int               `json:"callStack,omitempty"`
+	EvalDepth  int               `json:"evalDepth,omitempty"` // evaluation nesting depth still counted after the run (hook H3b)
 	Scopes     map[string][2]int `json:"scopes,omitempty"`
 	VMs        int               `json:"vms,omitempty"`
 
